@@ -60,6 +60,10 @@ pub struct SProfile {
     /// probability (x/100) that a feature is a twin of the previous one: same title, same
     /// scenarios, steps and lines, both without a path (one template rendered twice)
     pub p_twin_feature: u32,
+    /// probability (x/100) that the last rule-less scenario of a feature is followed by a copy of
+    /// itself (equal as a value - name, position, steps - but an entity of its own: the same
+    /// scenario listed twice, to be run twice)
+    pub p_twin_scenario: u32,
     /// weights: pass, skip, panic, ambiguous, notfound
     pub outcome_w: [u32; 5],
     pub decorate: bool,
@@ -96,6 +100,7 @@ impl Default for SProfile {
             p_allow_skipped: 10,
             p_logs: 25,
             log_fragments: false,
+            p_twin_scenario: 0,
             p_empty_brackets: 0,
             p_twin_feature: 0,
             outcome_w: [60, 10, 12, 6, 0],
@@ -395,7 +400,9 @@ pub fn gen_tree(t: &mut Tape, p: &SProfile) -> Tree {
                 .map(|i| {
                     let mut st = mkstep(decorate(t, &format!("{base}.st{i} arg{i}"), p, excluded), l + 1 + i, t.pick(3));
                     if p.decorate && pct(t, 15) {
-                        st.docstring = Some(format!("doc of {base}\n  indented {}\n", DECOR[t.pick(DECOR.len())]));
+                        // (one doc string in three ends with a blank line)
+                        let tail = if crate::tape::hash_str(&base) % 3 == 0 { "\n" } else { "" };
+                        st.docstring = Some(format!("doc of {base}\n  indented {}\n{tail}", DECOR[t.pick(DECOR.len())]));
                     } else if p.decorate && pct(t, 15) {
                         st.table = Some(gherkin::Table {
                             rows: vec![vec!["col".into(), "é wide 日本".into()], vec![DECOR[t.pick(DECOR.len())].into(), "1".into()]],
@@ -414,7 +421,12 @@ pub fn gen_tree(t: &mut Tape, p: &SProfile) -> Tree {
             mkscenario(name, steps, tags, l)
         };
         let nsc = t.pick(p.max_scenarios + 1);
-        let scs: Vec<gherkin::Scenario> = (0..nsc).map(|si| mk_sc(t, format!("F{fi}.S{si}"), &mut line, &mut excluded)).collect();
+        let mut scs: Vec<gherkin::Scenario> = (0..nsc).map(|si| mk_sc(t, format!("F{fi}.S{si}"), &mut line, &mut excluded)).collect();
+        if p.p_twin_scenario > 0 && pct(t, p.p_twin_scenario) {
+            if let Some(last) = scs.last().cloned() {
+                scs.push(last);
+            }
+        }
         let nr = t.pick(p.max_rules + 1);
         let mut rules = vec![];
         for ri in 0..nr {
